@@ -59,7 +59,7 @@ func lexProgPrepare(id string, count func(tier string) int) func(p *mon.Parent) 
 func lexProgPrepareRun(id string, count func(tier string) int, p *mon.Parent) (func(int) string, error) {
 	env := append(os.Environ(), "GOFLAGS=-mod=mod", "GOPROXY=off", "GOSUMDB=off", "GOTOOLCHAIN=local")
 	tool := filepath.Join(p.Scratch, "participle-gen")
-	cmd := exec.Command("go", "build", "-o", tool, ".")
+	cmd := exec.Command("go", append(append([]string{"build"}, gram.CoverArgs("")...), "-o", tool, ".")...)
 	cmd.Dir = gram.RepoDir() + "/cmd/participle"
 	cmd.Env = env
 	if out, err := cmd.CombinedOutput(); err != nil {
